@@ -178,6 +178,14 @@ where
 		t.num_inputs = lock_inputs.len();
 		for id in lock_inputs {
 			let mut coin = batch.get(&id.0, &id.1)?;
+			// inputs were chosen when the context was created, make sure no other
+			// transaction has reserved or spent them since
+			if coin.status == OutputStatus::Locked || coin.status == OutputStatus::Spent {
+				return Err(Error::GenericError(format!(
+					"Output {} is no longer available to be locked for this transaction",
+					id.0
+				)));
+			}
 			coin.tx_log_entry = Some(log_id);
 			amount_debited += coin.value;
 			batch.lock_output(&mut coin)?;
